@@ -1,6 +1,7 @@
 import Carquet.Proofs.SpecFileThrift
 import Carquet.Proofs.SpecFilePage
 import Carquet.Proofs.SpecFileStats
+import Carquet.Proofs.SpecFileUsize
 /-
 Page chaining: an uncompressed v1 data page with PLAIN values written by the reference writer
 (any Thrift header form, with or without CRC, with or without statistics, any run plan for the
@@ -112,9 +113,9 @@ def plainPageBytes (F : ThriftForm) (withCrc : Bool) (n : Nat) (st : Option Stat
 /-- header, checksum, (no) decompression and size check of such a page -/
 theorem readRawPage_plain (cfg : Config) (F : ThriftForm) (withCrc : Bool) (n : Nat) (st : Option StatsMeta) (body rest : Bytes)
     (hwf : (plainHdrTV body.length n (if withCrc then some (crcField body) else none) st).wf = true) :
-    ∃ size, readRawPage cfg 0 (plainPageBytes F withCrc n st body ++ rest) =
+    readRawPage cfg 0 (plainPageBytes F withCrc n st body ++ rest) =
       .ok ⟨⟨0, body.length, body.length, if withCrc then some (crcField body) else none, some ⟨n, 0, 3, 3, st⟩, none⟩,
-           body, size, rest⟩ := by
+           body, (plainPageBytes F withCrc n st body).length, rest⟩ := by
   have hp := parsePageHeader_plain F body.length n _ st hwf (body ++ rest)
   unfold plainPageBytes
   rw [List.append_assoc]
@@ -123,8 +124,11 @@ theorem readRawPage_plain (cfg : Config) (F : ThriftForm) (withCrc : Bool) (n : 
   have htake : (body ++ rest).take body.length = body := List.take_left
   have hdrop : (body ++ rest).drop body.length = rest := List.drop_left
   have hlt : ¬ (body.length + rest.length < body.length) := by omega
-  refine ⟨(encodeValF F (plainHdrTV body.length n (if withCrc then some (crcField body) else none) st) ++ (body ++ rest)).length
-            - (body ++ rest).length + body.length, ?_⟩
+  have hsize : (encodeValF F (plainHdrTV body.length n (if withCrc then some (crcField body) else none) st) ++ (body ++ rest)).length
+      - (body ++ rest).length + body.length =
+      (encodeValF F (plainHdrTV body.length n (if withCrc then some (crcField body) else none) st) ++ body).length := by
+    simp only [List.length_append]; omega
+  rw [hsize]
   cases withCrc with
   | false =>
     simp [htake, hdrop, decompress, hlt]
@@ -279,6 +283,22 @@ theorem writeDataPage_plain {leaf : LeafInfo} {dict : Option (List Bytes)} {pl :
       simp only [plainPageBytes, plainHdrTV]
       cases pl.crc <;> simp
 
+/-- an uncompressed page: header + uncompressed body is the page itself -/
+theorem writeDataPage_plain_usize {leaf : LeafInfo} {dict : Option (List Bytes)} {pl : PageLayout} {es : List Entry} {w : Written}
+    (hp : PlainLayout pl) (hw : writeDataPage leaf dict pl es = some w) : w.usize = w.bytes.length := by
+  unfold writeDataPage at hw
+  rw [hp.kind, hp.values, hp.comp, hp.hdrExtra, hp.memberExtra, hp.statsExtra, hp.damage] at hw
+  cases hr : levelBytes leaf.maxRep pl.repRuns (es.map (·.rep)) with
+  | none => simp [hr] at hw
+  | some repB =>
+    cases hd : levelBytes leaf.maxDef pl.defRuns (es.map (·.dl)) with
+    | none => simp [hr, hd] at hw
+    | some defB =>
+      simp only [hr, hd, Option.map_some, valueBytes, cutTail_zero, damageValues, compressWith, damagedSize,
+        Int.add_zero, Option.some.injEq, valueEncTag, levelEncTag, mkPage, oracleEntry] at hw
+      rw [← hw]
+      simp
+
 theorem encodeValF_struct_ne_nil (F : ThriftForm) (fs : List (Int × TVal)) : encodeValF F (.struct fs) ≠ [] := by
   simp [encodeValF]
 
@@ -306,7 +326,9 @@ theorem page_written (cfg : Config) (leaf : LeafInfo) (dict : Option (List Bytes
     (a : Written) (rest : Bytes) (hp : PlainLayout pl) (h1 : writeDataPage leaf dict pl es = some a)
     (hwf : ∀ e ∈ es, wellFormedEntry leaf e = true) (hlen : a.bytes.length < 2 ^ 31) (hes : es.length < 2 ^ 31) :
     ∃ p : RawPage, readRawPage cfg 0 (a.bytes ++ rest) = .ok p ∧ p.hdr.type = 0 ∧ p.rest = rest ∧
+      RawPage.usize p = a.usize ∧
       ∃ dh, p.hdr.data = some dh ∧ dh.encoding = 0 ∧ decodeDataPage leaf dict dh p.page = .ok es := by
+  have husz := writeDataPage_plain_usize hp h1
   obtain ⟨repB, defB, hr, hd, hbytes⟩ := writeDataPage_plain hp h1
   have hbody : (v1Body leaf .v1 es repB defB (plainEncode leaf (es.filterMap (·.val)))).length ≤ a.bytes.length := by
     rw [hbytes]; unfold plainPageBytes; simp
@@ -326,11 +348,14 @@ theorem page_written (cfg : Config) (leaf : LeafInfo) (dict : Option (List Bytes
   generalize hstd : statsFor leaf pl.stats (es.map (·.dl)) (es.filterMap (·.val)) = st at *
   have hhdr := plainHdrTV_wf body.length es.length (if pl.crc then some (crcField body) else none) st
     (by omega) hes (crc_inI32 pl.crc body) hst
-  obtain ⟨size, hraw⟩ := readRawPage_plain cfg pl.form pl.crc es.length st body rest hhdr
+  have hraw := readRawPage_plain cfg pl.form pl.crc es.length st body rest hhdr
   subst hbd hstd
   have hdec := decodeDataPage_written_stats leaf dict es pl.repRuns pl.defRuns repB defB pl.stats hr hd hwf (by omega) (by omega)
   rw [← hbytes] at hraw
-  exact ⟨_, hraw, rfl, rfl, _, rfl, rfl, hdec⟩
+  refine ⟨_, hraw, rfl, rfl, ?_, _, rfl, rfl, hdec⟩
+  rw [husz]
+  simp only [RawPage.usize]
+  omega
 
 /-- **page chaining**: the data pages the reference writer lays out back to back (uncompressed,
 PLAIN, any header form, any run plans, with or without CRC and statistics) are read back page by
@@ -372,7 +397,7 @@ theorem readDataPages_written (cfg : Config) (leaf : LeafInfo) (dict : Option (L
           | succ f =>
             have ih := readDataPages_written cfg leaf dict encodings r (es.drop pl.count) b f (fun _ => henc)
               (fun p hp => hpl p (by simp [hp])) h2 hwf2 (by omega) (by simp; omega) (by simp at hf; omega)
-            obtain ⟨p, hraw, hty, hrest, dh, hdh, hencd, hdec⟩ := page_written cfg leaf dict pl (es.take pl.count) a b.bytes
+            obtain ⟨p, hraw, hty, hrest, _, dh, hdh, hencd, hdec⟩ := page_written cfg leaf dict pl (es.take pl.count) a b.bytes
               (hpl pl (by simp)) h1 hwf1 (by omega) (by simp; omega)
             have hne : a.bytes ++ b.bytes ≠ [] := by
               obtain ⟨repB, defB, _, _, hbytes⟩ := writeDataPage_plain (hpl pl (by simp)) h1
@@ -382,6 +407,51 @@ theorem readDataPages_written (cfg : Config) (leaf : LeafInfo) (dict : Option (L
             rw [if_neg hne, hraw]
             simp only [hty, hdh, hencd, henc, hdec, hrest, ih, Bool.not_true, Bool.false_eq_true, if_false, if_true]
             simp [List.take_append_drop]
+
+/-- **uncompressed size of the chained pages**: the independent reader's sum of page headers and
+uncompressed page sizes over what `writeDataPages` laid out is the `usize` the reference writer records -/
+theorem chunkUsize_written (cfg : Config) (leaf : LeafInfo) (dict : Option (List Bytes)) :
+    ∀ (pls : List PageLayout) (es : List Entry) (w : Written) (fuel : Nat),
+      (∀ pl ∈ pls, PlainLayout pl) → writeDataPages leaf dict pls es = some w →
+      (∀ e ∈ es, wellFormedEntry leaf e = true) → w.bytes.length < 2 ^ 31 → es.length < 2 ^ 31 → pls.length < fuel →
+      chunkUsize fuel w.bytes = some w.usize
+  | [], es, w, fuel, _, hw, _, _, _, hf => by
+    simp only [writeDataPages] at hw
+    split at hw
+    · cases hw
+      cases fuel with
+      | zero => simp at hf
+      | succ f => simp [chunkUsize]
+    · cases hw
+  | pl :: r, es, w, fuel, hpl, hw, hwf, hlen, hes, hf => by
+    simp only [writeDataPages] at hw
+    split at hw
+    · cases hw
+    · rename_i hcount
+      cases h1 : writeDataPage leaf dict pl (es.take pl.count) with
+      | none => simp [h1] at hw
+      | some a =>
+        cases h2 : writeDataPages leaf dict r (es.drop pl.count) with
+        | none => simp [h1, h2] at hw
+        | some b =>
+          simp only [h1, h2, Option.some.injEq] at hw
+          subst hw
+          simp only [List.length_append] at hlen
+          have hwf1 : ∀ e ∈ es.take pl.count, wellFormedEntry leaf e = true := fun e he => hwf e (List.mem_of_mem_take he)
+          have hwf2 : ∀ e ∈ es.drop pl.count, wellFormedEntry leaf e = true := fun e he => hwf e (List.mem_of_mem_drop he)
+          cases fuel with
+          | zero => simp at hf
+          | succ f =>
+            have ih := chunkUsize_written cfg leaf dict r (es.drop pl.count) b f
+              (fun p hp => hpl p (by simp [hp])) h2 hwf2 (by omega) (by simp; omega) (by simp at hf; omega)
+            obtain ⟨p, hraw, _, hrest, husz, _⟩ := page_written cfg leaf dict pl (es.take pl.count) a b.bytes
+              (hpl pl (by simp)) h1 hwf1 (by omega) (by simp; omega)
+            have hne : a.bytes ++ b.bytes ≠ [] := by
+              obtain ⟨repB, defB, _, _, hbytes⟩ := writeDataPage_plain (hpl pl (by simp)) h1
+              rw [hbytes]; intro h
+              exact plainPageBytes_ne_nil _ _ _ _ _ (List.append_eq_nil_iff.mp h).1
+            rw [chunkUsize_of_raw cfg 0 _ p f hne hraw, hrest, ih, husz]
+            rfl
 
 theorem plainPages_count_le (leaf : LeafInfo) (dict : Option (List Bytes)) :
     ∀ (pls : List PageLayout) (es : List Entry) (w : Written), (∀ pl ∈ pls, PlainLayout pl) →
